@@ -109,7 +109,7 @@ def mon_delivery(tr, pid='C01', require_complete=True, skip_uids=()):
         if k in ('st', 'ch'):
             for dirn in ('resp', 'req'):
                 hs = [(e['data'], e['metadata']) for e in evs if e['ev'] == 'hand' and e['dir'] == dirn
-                      and nonempty(e['data'], e['metadata'])]
+                      and nonempty(e['data'], e['metadata']) and e.get('run', 1) == 1]
                 os_ = [(e['data'], e['metadata']) for e in evs if e['ev'] == 'on_next' and e['dir'] == dirn
                        and nonempty(e['data'], e['metadata'])]
                 sub = st['sub'].get(dirn)
@@ -201,7 +201,7 @@ def expected_wire(tr, side):
         rec = {'pub': [], 'ctl': [], 'all': [], 'uid': uid, 'k': k, 'role': 'requester' if side == req_side else 'responder'}
         total_ok = True
         for e in tr.world.log:
-            if e.get('uid') != uid or e['side'] != side:
+            if e.get('uid') != uid or e['side'] != side or e.get('run', 1) != 1:
                 continue
             ev = e['ev']
             item = None
@@ -358,4 +358,234 @@ def mon_no_loop_errors(tr, pid):
     out = []
     for err in tr.loop_errors:
         out.append(viol('unhandled_exception', '%s:unhandled_exception:%s' % (pid, err.get('type')), **err))
+    return out
+
+
+# ------------------------------------------------------------------------------------------------ C08
+
+REQ_TYPES = {'REQUEST_RESPONSE': 'rr', 'REQUEST_FNF': 'fnf', 'REQUEST_STREAM': 'st', 'REQUEST_CHANNEL': 'ch'}
+CONN_TYPES = ('SETUP', 'KEEPALIVE', 'LEASE', 'METADATA_PUSH', 'RESUME', 'RESUME_OK')
+ALLOWED = {
+    ('rr', 'requester'): {'CANCEL'},
+    ('rr', 'responder'): {'PAYLOAD', 'ERROR'},
+    ('fnf', 'requester'): set(),
+    ('fnf', 'responder'): set(),
+    ('st', 'requester'): {'REQUEST_N', 'CANCEL'},
+    ('st', 'responder'): {'PAYLOAD', 'ERROR'},
+    ('ch', 'requester'): {'PAYLOAD', 'REQUEST_N', 'CANCEL', 'ERROR'},
+    ('ch', 'responder'): {'PAYLOAD', 'REQUEST_N', 'CANCEL', 'ERROR'},
+}
+
+
+class _S:
+    """Per (endpoint, stream id) state as the endpoint itself has seen it."""
+    __slots__ = ('kind', 'role', 'train', 'own_complete', 'own_error', 'own_cancel', 'peer_complete', 'peer_error',
+                 'peer_cancel', 'payload_trains', 'req_done', 'peer_train', 'peer_req_done', 'cancels')
+
+    def __init__(self, kind, role):
+        self.kind, self.role = kind, role
+        self.train = None  # type of the own fragment train in progress
+        self.peer_train = False
+        self.own_complete = self.own_error = self.own_cancel = False
+        self.peer_complete = self.peer_error = self.peer_cancel = False
+        self.payload_trains = 0
+        self.req_done = False
+        self.peer_req_done = False
+        self.cancels = 0
+
+    def own_closed(self):
+        """This endpoint will not legitimately send anything more on the stream."""
+        if self.own_error or (self.own_cancel and self.role == 'requester'):
+            return True
+        if self.kind == 'fnf':
+            return self.req_done or self.role == 'responder'
+        if self.kind == 'rr':
+            return self.own_complete if self.role == 'responder' else False
+        if self.kind == 'st':
+            return self.own_complete if self.role == 'responder' else False
+        return False
+
+    def terminated(self):
+        """Both directions are over from this endpoint's point of view (the id may be used again)."""
+        if self.own_error or self.peer_error:
+            return True
+        if self.role == 'requester' and self.own_cancel:
+            return True
+        if self.role == 'responder' and self.peer_cancel:
+            return True
+        if self.kind == 'fnf':
+            return self.req_done if self.role == 'requester' else self.peer_req_done
+        if self.kind in ('rr', 'st'):
+            return self.peer_complete if self.role == 'requester' else self.own_complete
+        if self.kind == 'ch':
+            return self.own_complete and self.peer_complete
+        return False
+
+
+def mon_protocol(tr, pid='C08', decision=None):
+    """Everything an endpoint puts on the wire is legal for its role (statement of C08), judged on the endpoint's own
+    interleaved send/receive log. Rules that depend on receptions use the moment the library decided to emit where
+    the harness can know it (request-response CANCEL: the future's done callback), otherwise only the endpoint's own
+    send order is judged, so frames already queued when a peer frame arrives are never blamed."""
+    out = []
+    parity = {'c': 1, 's': 0}
+    setup_by_tr = {}
+    first_by_tr = {}
+    states = {'c': {}, 's': {}}
+    last_rr_cancelled = {}
+    for e in tr.world.log:
+        side = e['side']
+        if side not in ('c', 's'):
+            continue
+        if e['ev'] == 'rr_cancelled':
+            last_rr_cancelled[(side, e['uid'])] = e['seq']
+            continue
+        if e['ev'] not in ('send', 'recv'):
+            continue
+        f = e['f']
+        t = f['type']
+        sid = f['sid']
+        st = states[side]
+
+        def bad(kind, sig=None, **kw):
+            out.append(viol(kind, '%s:%s' % (pid, sig or kind), side=side, sid=sid, type=t, seq=e['seq'], **kw))
+
+        if e['ev'] == 'recv':
+            if t == 'INVALID' or sid in (None, 0):
+                continue
+            s = st.get(sid)
+            if t in REQ_TYPES:
+                if s is None or s.terminated():
+                    s = st[sid] = _S(REQ_TYPES[t], 'responder')
+                    s.peer_train = bool(f.get('follows'))
+                    s.peer_req_done = not s.peer_train
+                    if t == 'REQUEST_CHANNEL' and f.get('complete') and not f.get('follows'):
+                        s.peer_complete = True
+                continue
+            if s is None:
+                continue
+            if t == 'PAYLOAD':
+                if s.peer_train and not s.peer_req_done:
+                    if not f.get('follows'):
+                        s.peer_req_done = True
+                        s.peer_train = False
+                        if s.kind == 'ch' and f.get('complete'):
+                            s.peer_complete = True
+                    continue
+                if f.get('complete') and not f.get('follows'):
+                    s.peer_complete = True
+            elif t == 'ERROR':
+                s.peer_error = True
+            elif t == 'CANCEL':
+                s.peer_cancel = True
+            continue
+
+        # ---- send
+        trid = e.get('tr')
+        if trid not in first_by_tr:
+            first_by_tr[trid] = t
+            if side == 'c' and t != 'SETUP':
+                bad('first_frame_not_setup', 'setup_not_first', first=t)
+        if t == 'SETUP':
+            if side == 's':
+                bad('server_sent_setup')
+            setup_by_tr[trid] = setup_by_tr.get(trid, 0) + 1
+            if setup_by_tr[trid] > 1:
+                bad('setup_sent_twice')
+        if t in CONN_TYPES:
+            if sid != 0:
+                bad('connection_frame_on_stream', 'connection_frame_on_stream:' + t)
+            continue
+        if sid == 0:
+            if t != 'ERROR':
+                bad('stream_frame_on_connection_stream', 'stream_frame_on_stream_0:' + t)
+            continue
+        s = st.get(sid)
+        if t in REQ_TYPES:
+            if s is not None and not s.terminated() and not (s.role == 'responder' and s.own_closed()):
+                bad('request_on_live_stream_id', 'request_on_live_id')
+            if sid % 2 != parity[side]:
+                bad('wrong_stream_id_parity', 'wrong_parity')
+            if t in ('REQUEST_STREAM', 'REQUEST_CHANNEL') and not (f.get('n') or 0) > 0:
+                bad('non_positive_initial_request_n', 'initial_request_n', n=f.get('n'))
+            s = st[sid] = _S(REQ_TYPES[t], 'requester')
+            if f.get('follows'):
+                s.train = t
+            else:
+                s.req_done = True
+                if t == 'REQUEST_CHANNEL' and f.get('complete'):
+                    s.own_complete = True
+            continue
+        if s is None:
+            bad('frame_on_unopened_stream', 'frame_on_unopened_stream:' + t)
+            continue
+        # continuation of the own request train
+        if s.train is not None:
+            if t != 'PAYLOAD':
+                bad('frame_inside_fragment_train', 'frame_inside_train:' + t)
+            else:
+                if not f.get('follows'):
+                    was = s.train
+                    s.train = None
+                    if was in REQ_TYPES:
+                        s.req_done = True
+                        if was == 'REQUEST_CHANNEL' and f.get('complete'):
+                            s.own_complete = True
+                    else:
+                        if f.get('complete'):
+                            s.own_complete = True
+            continue
+        if s.role == 'requester' and not s.req_done:
+            bad('frame_before_request_complete', 'frame_before_request:' + t)
+        if t not in ALLOWED[(s.kind, s.role)]:
+            bad('frame_type_not_allowed_for_role', 'type_not_allowed:%s:%s:%s' % (s.kind, s.role, t))
+            continue
+        # own-order rules
+        if s.own_error:
+            bad('frame_after_own_error', 'after_own_error:%s:%s:%s' % (s.kind, s.role, t))
+        elif s.own_cancel and s.role == 'requester':
+            bad('frame_after_own_cancel', 'after_own_cancel:%s:%s' % (s.kind, t))
+        elif t == 'PAYLOAD' and s.own_complete:
+            bad('payload_after_own_complete', 'payload_after_own_complete:%s:%s' % (s.kind, s.role))
+        elif s.kind == 'ch' and s.own_complete and s.peer_complete and t in ('PAYLOAD', 'ERROR'):
+            bad('frame_after_both_directions_completed', 'after_both_complete:%s:%s' % (s.kind, t))
+        elif s.kind == 'rr' and s.role == 'requester' and t == 'CANCEL' and s.peer_complete:
+            # decided after the response was yielded? (the done callback of the cancelled future is that moment)
+            uid = tr.world.sid_map.get((side, sid))
+            decided = last_rr_cancelled.get((side, uid))
+            resp_seq = next((x['seq'] for x in tr.world.recv.get(side, []) if x['f']['sid'] == sid and
+                             x['f']['type'] in ('PAYLOAD', 'ERROR') and not x['f'].get('follows')), None)
+            if decided is None or resp_seq is None or decided > resp_seq:
+                bad('cancel_after_response', 'cancel_after_response:rr')
+        if t == 'PAYLOAD':
+            if s.kind == 'rr' and s.role == 'responder' and s.payload_trains >= 1:
+                bad('second_response', 'second_response:rr')
+            if f.get('follows'):
+                s.train = 'PAYLOAD'
+                s.payload_trains += 1
+            else:
+                s.payload_trains += 1
+                if f.get('complete'):
+                    s.own_complete = True
+        elif t == 'ERROR':
+            s.own_error = True
+        elif t == 'CANCEL':
+            s.cancels += 1
+            if s.cancels > 1:
+                bad('cancel_sent_twice', 'cancel_twice:%s' % s.kind)
+            s.own_cancel = True
+    return out
+
+
+def mon_wire_selfcheck(tr, pid):
+    """What was written differs from the frame object handed to send_frame (decoded with the reference codec)."""
+    out = []
+    for side in ('c', 's'):
+        for e in tr.world.wire.get(side, []):
+            if e.get('wire_mismatch'):
+                out.append(viol('wire_differs_from_frame_object', '%s:wire_mismatch:%s' % (pid, ','.join(e['wire_mismatch'])),
+                                side=side, type=e['f']['type'], fields=e['wire_mismatch']))
+            if e.get('wire_error'):
+                out.append(viol('wire_not_decodable', '%s:wire_not_decodable' % pid, side=side, type=e['f']['type'],
+                                err=e['wire_error']))
     return out
